@@ -64,5 +64,5 @@ def run(tier):
                    "history_outcomes": kinds, "parser_histories": hists,
                    "histories_with_input_over_100_tokens": sum(1 for r in res for h in r["hists"] if any(len(x) > 100 for x in h["hist"])), "lexer_resets": resets,
                    "samples": [dict(h, hist=[x[:40] for x in h["hist"]], line=h["line"][:300], impl=h["impl"][:300], model=h["model"][:300], fresh=h["fresh"][:300]) for h in [r["hists"][-1] for r in res if r["hists"]][:2]]})
-    ck.assumptions += ["attribute values are immutable in the model (popN aliases the stack's backing array; an action retaining X itself is outside the model)"]
+    ck.assumptions += ["attribute values are immutable in the model; since fix D17 popN copies, and action shape 8 (X itself retained) is part of the histories"]
     return ck.finish()
